@@ -208,7 +208,16 @@ func runC07(c *Ctx) {
 		}
 		return
 	}
-	f, err := openBytes(data)
+	var fopts []parquet.FileOption
+	switch c.Case % 4 {
+	case 1:
+		fopts = []parquet.FileOption{parquet.PrefetchBloomFilters(true), parquet.OptimisticRead(true)}
+		c.Obs("open_prefetch_bloom_filters", 1)
+	case 2:
+		fopts = []parquet.FileOption{parquet.SkipBloomFilters(true)} // loaded lazily by BloomFilter()
+		c.Obs("open_skip_bloom_filters_lazy", 1)
+	}
+	f, err := openBytes(data, fopts...)
 	if err != nil {
 		c.Fail("c07.open", keys, "%v", err)
 		return
